@@ -508,4 +508,551 @@ theorem good_step (tag : Nat) (r : Responder) (script : List Bytes)
           simp [Responder.serviceOnce, hpe, hw, hs, hl] at hne
 
 
+/-- the response the client is supposed to deliver for a request -/
+def expected (app : Req → AppResp) (q : Req) : Delivered := ⟨q.id, q.id, bodyOf (app q)⟩
+
+/-- the server has nothing queued and nothing more to say; if a connection exists its request parser is armed -/
+def Quiet (s : Server) : Prop :=
+  s.tx = [] ∧ (∀ r, s.resp = some r → r.ended = true) ∧ (s.accepted = true → s.parsing = true)
+  ∧ (s.accepted = false → s.rx = [] ∧ s.resp = none)
+
+/-- facts that hold in every phase -/
+structure Base (y : Sys) : Prop where
+  ctx : y.c.tx = []
+  nostuck : y.c.stuck = false
+  conn : y.c.connected = true → (y.s.pending = true ∨ y.s.accepted = true)
+  excl : y.s.pending = true → y.s.accepted = false
+  unconn : y.c.connected = false → y.s.pending = false ∧ y.s.accepted = false
+  stx : y.s.tx = []
+
+/-- `k` responses delivered, nothing in flight -/
+def Idle (app : Req → AppResp) (reqs : List Req) (y : Sys) (k : Nat) : Prop :=
+  k ≤ reqs.length ∧ y.c.waited = false ∧ y.c.queue = reqs.drop k ∧ y.c.responses = (reqs.take k).map (expected app)
+  ∧ y.c.cur = none ∧ y.c.rx = [] ∧ y.c2s = [] ∧ y.s2c = [] ∧ y.s.rx = [] ∧ Quiet y.s
+
+/-- request `k` is on its way to the server -/
+def Requested (app : Req → AppResp) (reqs : List Req) (y : Sys) (k : Nat) (q : Req) : Prop :=
+  reqs[k]? = some q ∧ y.c.connected = true ∧ y.c.waited = true ∧ y.c.latest = some q ∧ y.c.queue = reqs.drop (k + 1)
+  ∧ y.c.responses = (reqs.take k).map (expected app)
+  ∧ y.c.cur = none ∧ y.c.rx = [] ∧ y.s2c = [] ∧ y.s.rx ++ y.c2s = [q]
+  ∧ y.s.tx = [] ∧ (∀ r, y.s.resp = some r → r.ended = true) ∧ (y.s.accepted = true → y.s.parsing = true)
+  ∧ (y.s.accepted = false → y.s.rx = [] ∧ y.s.resp = none)
+
+/-- the server is answering request `k`; whatever is parsed, buffered, on the wire, queued or still to be produced
+adds up to exactly the expected response -/
+def Responding (app : Req → AppResp) (reqs : List Req) (y : Sys) (k : Nat) (q : Req) : Prop :=
+  reqs[k]? = some q ∧ y.c.connected = true ∧ y.c.waited = true ∧ y.c.latest = some q ∧ y.c.queue = reqs.drop (k + 1)
+  ∧ y.c.responses = (reqs.take k).map (expected app)
+  ∧ y.c2s = [] ∧ y.s.rx = [] ∧ y.s.accepted = true ∧ y.s.tag = q.id
+  ∧ ∃ r, y.s.resp = some r ∧ (r.ended = true → y.s.parsing = true)
+      ∧ (r.ended = false → Good (if y.s.appStarted then r else r.start y.s.cl) y.s.script)
+      ∧ feed y.c.cur (y.c.rx ++ y.s2c ++ y.s.tx ++ future y.s) = .done q.id (bodyOf (app q)) []
+
+def Inv (app : Req → AppResp) (reqs : List Req) (y : Sys) : Prop :=
+  Base y ∧ ∃ k, Idle app reqs y k ∨ (∃ q, Requested app reqs y k q) ∨ (∃ q, Responding app reqs y k q)
+
+theorem inv_init (app : Req → AppResp) (reqs : List Req) : Inv app reqs (initSys reqs) := by
+  refine ⟨⟨rfl, rfl, by simp [initSys], by simp [initSys], by simp [initSys], rfl⟩, 0, Or.inl ?_⟩
+  simp [Idle, initSys, Quiet]
+
+theorem take_succ_map (app : Req → AppResp) (reqs : List Req) (k : Nat) (q : Req) (hq : reqs[k]? = some q) :
+    (reqs.take (k + 1)).map (expected app) = (reqs.take k).map (expected app) ++ [expected app q] := by
+  rw [List.take_add_one, hq]; simp
+
+theorem drop_of_get (reqs : List Req) (k : Nat) (q : Req) (hq : reqs[k]? = some q) :
+    reqs.drop k = q :: reqs.drop (k + 1) := by
+  have hk : k < reqs.length := by
+    rcases Nat.lt_or_ge k reqs.length with h | h
+    · exact h
+    · rw [List.getElem?_eq_none h] at hq; cases hq
+  rw [List.drop_eq_getElem_cons hk]
+  rw [List.getElem?_eq_getElem hk] at hq
+  cases hq; rfl
+
+theorem connect_base (y : Sys) (hb : Base y) :
+    (connect y).1.connected = true ∧ ((connect y).2.pending = true ∨ (connect y).2.accepted = true)
+    ∧ ((connect y).2.pending = true → (connect y).2.accepted = false) := by
+  unfold connect
+  cases hc : y.c.connected with
+  | true => simp only [if_true]; exact ⟨hc, hb.conn hc, hb.excl⟩
+  | false =>
+    have := (hb.unconn hc).2
+    simp [this]
+
+theorem connect_c (y : Sys) : (connect y).1 = { y.c with connected := true } ∨ ((connect y).1 = y.c ∧ y.c.connected = true) := by
+  unfold connect
+  cases hc : y.c.connected with
+  | true => right; simp [hc]
+  | false => left; simp
+
+/-- fields of the client that `connect` does not touch -/
+theorem connect_fields (y : Sys) :
+    (connect y).1.waited = y.c.waited ∧ (connect y).1.queue = y.c.queue ∧ (connect y).1.responses = y.c.responses
+    ∧ (connect y).1.cur = y.c.cur ∧ (connect y).1.rx = y.c.rx ∧ (connect y).1.tx = y.c.tx ∧ (connect y).1.stuck = y.c.stuck
+    ∧ (connect y).1.latest = y.c.latest
+    ∧ (connect y).2.rx = y.s.rx ∧ (connect y).2.tx = y.s.tx ∧ (connect y).2.resp = y.s.resp
+    ∧ (connect y).2.accepted = y.s.accepted ∧ (connect y).2.parsing = y.s.parsing ∧ (connect y).2.tag = y.s.tag
+    ∧ (connect y).2.script = y.s.script ∧ (connect y).2.cl = y.s.cl ∧ (connect y).2.appStarted = y.s.appStarted
+    ∧ future (connect y).2 = future y.s := by
+  unfold connect
+  split <;> simp [future]
+
+theorem base_stepClient (y : Sys) (hb : Base y) (hstuck : (stepClient y).c.stuck = false) : Base (stepClient y) := by
+  have hcb := connect_base y hb
+  refine ⟨?_, hstuck, ?_, ?_, ?_, ?_⟩
+  · simp only [stepClient, Client.serviceResponse]
+    split
+    · split <;> rfl
+    · rfl
+  · intro _; exact hcb.2.1
+  · exact hcb.2.2
+  · intro h
+    exfalso
+    have : (stepClient y).c.connected = true := by
+      simp only [stepClient, Client.serviceResponse, Client.serviceRequests]
+      split <;> (try split) <;> (try split) <;> (try split) <;> simp [hcb.1]
+    rw [this] at h; cases h
+  · show (connect y).2.tx = []
+    rw [(connect_fields y).2.2.2.2.2.2.2.2.2.1]; exact hb.stx
+
+theorem quiet_connect (y : Sys) (h : Quiet y.s) : Quiet (connect y).2 := by
+  have f := connect_fields y
+  unfold Quiet at *
+  rw [f.2.2.2.2.2.2.2.2.2.1, f.2.2.2.2.2.2.2.2.2.2.1, f.2.2.2.2.2.2.2.2.2.2.2.1, f.2.2.2.2.2.2.2.2.2.2.2.2.1, f.2.2.2.2.2.2.2.2.1]
+  exact h
+
+theorem stepClient_idle (app : Req → AppResp) (reqs : List Req) (y : Sys) (k : Nat) (hb : Base y)
+    (h : Idle app reqs y k) : Inv app reqs (stepClient y) := by
+  obtain ⟨hk, hw, hq, hresp, hcur, hrx, hc2s, hs2c, hsrx, hquiet⟩ := h
+  have f := connect_fields y
+  have hcb := connect_base y hb
+  by_cases hlast : k = reqs.length
+  · -- nothing left to send
+    have hq' : (connect y).1.queue = [] := by rw [f.2.1, hq, hlast]; simp
+    have hsc : stepClient y = { c := { (connect y).1 with tx := [], rx := (connect y).1.rx ++ y.s2c },
+                                s := (connect y).2, c2s := y.c2s ++ (connect y).1.tx, s2c := [] } := by
+      simp [stepClient, Client.serviceRequests, Client.serviceResponse, f.1, hw, hq']
+    have hst : (stepClient y).c.stuck = false := by rw [hsc]; simp [f.2.2.2.2.2.2.1, hb.nostuck]
+    refine ⟨base_stepClient y hb hst, k, Or.inl ?_⟩
+    rw [hsc]
+    refine ⟨hk, ?_, ?_, ?_, ?_, ?_, ?_, rfl, ?_, quiet_connect y hquiet⟩
+    · simp [f.1, hw]
+    · simp [f.2.1, hq]
+    · simp [f.2.2.1, hresp]
+    · simp [f.2.2.2.1, hcur]
+    · simp [f.2.2.2.2.1, hrx, hs2c]
+    · simp [f.2.2.2.2.2.1, hb.ctx, hc2s]
+    · simp [f.2.2.2.2.2.2.2.2.1, hsrx]
+  · -- request k goes out
+    have hklt : k < reqs.length := by omega
+    have hget : reqs[k]? = some reqs[k] := List.getElem?_eq_getElem hklt
+    have hq' : (connect y).1.queue = reqs[k] :: reqs.drop (k + 1) := by rw [f.2.1, hq]; exact drop_of_get reqs k _ hget
+    have hsr : (connect y).1.serviceRequests
+        = { (connect y).1 with queue := reqs.drop (k + 1), latest := some reqs[k], tx := [reqs[k]], waited := true } := by
+      unfold Client.serviceRequests
+      rw [hq']
+      simp [f.1, hw, f.2.2.2.2.2.1, hb.ctx]
+    have hsc : stepClient y =
+        { c := { (connect y).1 with queue := reqs.drop (k + 1), latest := some reqs[k], tx := [], waited := true, cur := none, rx := [] },
+          s := (connect y).2, c2s := [reqs[k]], s2c := [] } := by
+      unfold stepClient
+      rw [hsr]
+      simp [Client.serviceResponse, hc2s, f.2.2.2.2.2.2.1, hb.nostuck, f.2.2.2.1, hcur, f.2.2.2.2.1, hrx, hs2c, feed]
+    have hst : (stepClient y).c.stuck = false := by rw [hsc]; simp [f.2.2.2.2.2.2.1, hb.nostuck]
+    refine ⟨base_stepClient y hb hst, k, Or.inr (Or.inl ⟨reqs[k], ?_⟩)⟩
+    rw [hsc]
+    have hq2 := quiet_connect y hquiet
+    refine ⟨hget, hcb.1, rfl, rfl, rfl, ?_, rfl, rfl, rfl, ?_, hq2.1, hq2.2.1, hq2.2.2.1, hq2.2.2.2⟩
+    · simp [f.2.2.1, hresp]
+    · simp [f.2.2.2.2.2.2.2.2.1, hsrx]
+
+theorem serviceRequests_waited (c : Client) (h : c.waited = true) : c.serviceRequests = c := by
+  simp [Client.serviceRequests, h]
+
+theorem stepClient_requested (app : Req → AppResp) (reqs : List Req) (y : Sys) (k : Nat) (q : Req) (hb : Base y)
+    (h : Requested app reqs y k q) : Inv app reqs (stepClient y) := by
+  obtain ⟨hget, hconn, hw, hlat, hq, hresp, hcur, hrx, hs2c, hwire, hstx, hended, hpars, hnacc⟩ := h
+  have f := connect_fields y
+  have hcb := connect_base y hb
+  have hsr := serviceRequests_waited (connect y).1 (by rw [f.1, hw])
+  have hsc : stepClient y = { c := { (connect y).1 with tx := [], cur := none, rx := [] },
+                              s := (connect y).2, c2s := y.c2s, s2c := [] } := by
+    unfold stepClient
+    rw [hsr]
+    simp [Client.serviceResponse, f.1, hw, f.2.2.2.2.2.2.1, hb.nostuck, f.2.2.2.1, hcur, f.2.2.2.2.1, hrx, hs2c, feed,
+      f.2.2.2.2.2.1, hb.ctx]
+  have hst : (stepClient y).c.stuck = false := by rw [hsc]; simp [f.2.2.2.2.2.2.1, hb.nostuck]
+  refine ⟨base_stepClient y hb hst, k, Or.inr (Or.inl ⟨q, ?_⟩)⟩
+  rw [hsc]
+  refine ⟨hget, hcb.1, ?_, ?_, ?_, ?_, rfl, rfl, rfl, ?_, ?_, ?_, ?_, ?_⟩
+  · simp [f.1, hw]
+  · simp [f.2.2.2.2.2.2.2.1, hlat]
+  · simp [f.2.1, hq]
+  · simp [f.2.2.1, hresp]
+  · simp [f.2.2.2.2.2.2.2.2.1, hwire]
+  · simp [f.2.2.2.2.2.2.2.2.2.1, hstx]
+  · simpa [f.2.2.2.2.2.2.2.2.2.2.1] using hended
+  · simpa [f.2.2.2.2.2.2.2.2.2.2.2.1, f.2.2.2.2.2.2.2.2.2.2.2.2.1] using hpars
+  · simpa [f.2.2.2.2.2.2.2.2.2.2.2.1, f.2.2.2.2.2.2.2.2.1, f.2.2.2.2.2.2.2.2.2.2.1] using hnacc
+
+theorem future_nil_ended (s : Server) (r : Responder) (hr : s.resp = some r)
+    (hg : r.ended = false → Good (if s.appStarted then r else r.start s.cl) s.script) (hf : future s = []) :
+    r.ended = true := by
+  cases he : r.ended with
+  | true => rfl
+  | false =>
+    exfalso
+    have hne : (if s.appStarted then r else r.start s.cl).ended = false := by
+      split
+      · exact he
+      · unfold Responder.start; cases s.cl <;> exact he
+    have := good_future_ne s.tag s.script _ (hg he) hne
+    simp [future, hr, he] at hf
+    exact this hf
+
+theorem stepClient_responding (app : Req → AppResp) (reqs : List Req) (y : Sys) (k : Nat) (q : Req) (hb : Base y)
+    (h : Responding app reqs y k q) : Inv app reqs (stepClient y) := by
+  obtain ⟨hget, hconn, hw, hlat, hq, hresp, hc2s, hsrx, hacc, htag, r, hr, hpars, hgood, hfeed⟩ := h
+  have f := connect_fields y
+  have hcb := connect_base y hb
+  have hsr := serviceRequests_waited (connect y).1 (by rw [f.1, hw])
+  -- what the parser makes of what has arrived
+  have happ : feed y.c.cur (y.c.rx ++ y.s2c ++ y.s.tx ++ future y.s)
+      = (feed y.c.cur (y.c.rx ++ y.s2c)).andThen (y.s.tx ++ future y.s) := by
+    rw [← feed_append]; simp [List.append_assoc]
+  rw [happ] at hfeed
+  cases hout : feed y.c.cur (y.c.rx ++ y.s2c) with
+  | stuck => rw [hout] at hfeed; simp [Outcome.andThen] at hfeed
+  | more cur' =>
+    rw [hout] at hfeed
+    simp only [Outcome.andThen] at hfeed
+    have hsc : stepClient y = { c := { (connect y).1 with tx := [], cur := cur', rx := [] },
+                                s := (connect y).2, c2s := y.c2s, s2c := [] } := by
+      unfold stepClient
+      rw [hsr]
+      simp [Client.serviceResponse, f.1, hw, f.2.2.2.2.2.2.1, hb.nostuck, f.2.2.2.1, f.2.2.2.2.1, hout, f.2.2.2.2.2.1, hb.ctx]
+    have hst : (stepClient y).c.stuck = false := by rw [hsc]; simp [f.2.2.2.2.2.2.1, hb.nostuck]
+    refine ⟨base_stepClient y hb hst, k, Or.inr (Or.inr ⟨q, ?_⟩)⟩
+    rw [hsc]
+    refine ⟨hget, hcb.1, ?_, ?_, ?_, ?_, hc2s, ?_, ?_, ?_, r, ?_, ?_, ?_, ?_⟩
+    · simp [f.1, hw]
+    · simp [f.2.2.2.2.2.2.2.1, hlat]
+    · simp [f.2.1, hq]
+    · simp [f.2.2.1, hresp]
+    · simp [f.2.2.2.2.2.2.2.2.1, hsrx]
+    · simp [f.2.2.2.2.2.2.2.2.2.2.2.1, hacc]
+    · simp [f.2.2.2.2.2.2.2.2.2.2.2.2.2.1, htag]
+    · simp [f.2.2.2.2.2.2.2.2.2.2.1, hr]
+    · simpa [f.2.2.2.2.2.2.2.2.2.2.2.2.1] using hpars
+    · simpa [f.2.2.2.2.2.2.2.2.2.2.2.2.2.2.1, f.2.2.2.2.2.2.2.2.2.2.2.2.2.2.2.1, f.2.2.2.2.2.2.2.2.2.2.2.2.2.2.2.2.1] using hgood
+    · simpa [f.2.2.2.2.2.2.2.2.2.1, f.2.2.2.2.2.2.2.2.2.2.2.2.2.2.2.2.2] using hfeed
+  | done t body rest =>
+    rw [hout] at hfeed
+    simp only [Outcome.andThen, Outcome.done.injEq, List.append_eq_nil_iff] at hfeed
+    obtain ⟨ht, hbody, hrest, hstx, hfut⟩ := hfeed
+    have hended := future_nil_ended y.s r hr hgood hfut
+    have hsc : stepClient y =
+        { c := { (connect y).1 with tx := [], cur := none, rx := [], waited := false, latest := none, responses := y.c.responses ++ [expected app q] },
+          s := (connect y).2, c2s := y.c2s, s2c := [] } := by
+      unfold stepClient
+      rw [hsr]
+      simp [Client.serviceResponse, f.1, hw, f.2.2.2.2.2.2.1, hb.nostuck, f.2.2.2.1, f.2.2.2.2.1, hout, f.2.2.2.2.2.1, hb.ctx,
+        f.2.2.2.2.2.2.2.1, hlat, f.2.2.1, expected, ht, hbody, hrest]
+    have hst : (stepClient y).c.stuck = false := by rw [hsc]; simp [f.2.2.2.2.2.2.1, hb.nostuck]
+    have hklt : k < reqs.length := by
+      rcases Nat.lt_or_ge k reqs.length with h | h
+      · exact h
+      · rw [List.getElem?_eq_none h] at hget; cases hget
+    refine ⟨base_stepClient y hb hst, k + 1, Or.inl ?_⟩
+    rw [hsc]
+    refine ⟨by omega, rfl, ?_, ?_, rfl, rfl, hc2s, rfl, ?_, ?_⟩
+    · simp [f.2.1, hq]
+    · simp [hresp, take_succ_map app reqs k q hget]
+    · simp [f.2.2.2.2.2.2.2.2.1, hsrx]
+    · refine ⟨?_, ?_, ?_, ?_⟩
+      · simp [f.2.2.2.2.2.2.2.2.2.1, hstx]
+      · intro r' hr'
+        rw [f.2.2.2.2.2.2.2.2.2.2.1, hr] at hr'
+        cases hr'; exact hended
+      · intro _; rw [f.2.2.2.2.2.2.2.2.2.2.2.2.1]; exact hpars hended
+      · intro hna; rw [f.2.2.2.2.2.2.2.2.2.2.2.1, hacc] at hna; cases hna
+
+/-! ### server step -/
+
+theorem serviceReqs_nil (app : Req → AppResp) (s : Server) (h : s.rx = []) : s.serviceReqs app = s := by
+  unfold Server.serviceReqs; split <;> simp [h]
+
+theorem serviceRun_quiet (s : Server) (h : ∀ r, s.resp = some r → r.ended = true) : s.serviceRun = s := by
+  unfold Server.serviceRun
+  split
+  · rfl
+  · rename_i r hr; simp [h r hr]
+
+theorem rearm_armed (s : Server) (h : ∀ r, s.resp = some r → r.ended = true → s.parsing = true) : s.rearm = s := by
+  unfold Server.rearm
+  split
+  · rename_i r hr
+    cases he : r.ended with
+    | true => simp [h r hr he]
+    | false => simp
+  · rfl
+
+theorem rearm_fields (s : Server) :
+    s.rearm.pending = s.pending ∧ s.rearm.accepted = s.accepted ∧ s.rearm.rx = s.rx ∧ s.rearm.resp = s.resp
+    ∧ s.rearm.tag = s.tag ∧ s.rearm.script = s.script ∧ s.rearm.cl = s.cl ∧ s.rearm.appStarted = s.appStarted := by
+  unfold Server.rearm; split <;> (try split) <;> simp
+
+theorem rearm_parsing (s : Server) (r : Responder) (hr : s.resp = some r) (he : r.ended = true) : s.rearm.parsing = true := by
+  unfold Server.rearm
+  simp only [hr, he, Bool.true_and]
+  cases hp : s.parsing <;> simp [hp]
+
+theorem serviceRun_fields (s : Server) :
+    s.serviceRun.pending = s.pending ∧ s.serviceRun.accepted = s.accepted ∧ s.serviceRun.rx = s.rx
+    ∧ s.serviceRun.tag = s.tag ∧ s.serviceRun.cl = s.cl ∧ s.serviceRun.parsing = s.parsing := by
+  unfold Server.serviceRun; split <;> (try split) <;> simp
+
+theorem base_stepServer (app : Req → AppResp) (y : Sys) (hb : Base y) : Base (stepServer app y) := by
+  have hp : (stepServer app y).s.pending = y.s.accept.pending ∧ (stepServer app y).s.accepted = y.s.accept.accepted := by
+    simp only [stepServer, Server.serviceReps]
+    have h1 := rearm_fields ((y.s.accept.receive y.c2s).1.serviceReqs app).serviceRun
+    have h2 := serviceRun_fields ((y.s.accept.receive y.c2s).1.serviceReqs app)
+    have h3 : ((y.s.accept.receive y.c2s).1.serviceReqs app).pending = y.s.accept.pending
+        ∧ ((y.s.accept.receive y.c2s).1.serviceReqs app).accepted = y.s.accept.accepted := by
+      unfold Server.serviceReqs Server.receive
+      split <;> split <;> (try split) <;> simp
+    simp [h1.1, h1.2.1, h2.1, h2.2.1, h3.1, h3.2]
+  have hc : (stepServer app y).c = y.c := rfl
+  refine ⟨by rw [hc]; exact hb.ctx, by rw [hc]; exact hb.nostuck, ?_, ?_, ?_, rfl⟩
+  · intro h
+    rw [hc] at h
+    rw [hp.1, hp.2]
+    unfold Server.accept
+    rcases hb.conn h with h1 | h1
+    · simp [h1]
+    · have : y.s.pending = false := by
+        cases hpd : y.s.pending with
+        | false => rfl
+        | true => have := hb.excl hpd; rw [h1] at this; cases this
+      simp [this, h1]
+  · rw [hp.1, hp.2]
+    unfold Server.accept
+    cases hpd : y.s.pending with
+    | true => simp
+    | false => simp [hpd]
+  · intro h
+    rw [hc] at h
+    have := hb.unconn h
+    rw [hp.1, hp.2]
+    unfold Server.accept
+    simp [this.1, this.2]
+
+theorem tx_nil_eq (s : Server) (h : s.tx = []) : ({ s with tx := [] } : Server) = s := by
+  cases s; simp_all
+
+theorem receive_nil (s : Server) : s.receive [] = (s, []) := by
+  unfold Server.receive
+  split
+  · have : ({ s with rx := s.rx ++ [] } : Server) = s := by cases s; simp
+    rw [this]
+  · rfl
+
+theorem accept_fields (s : Server) :
+    s.accept.rx = s.rx ∧ s.accept.tx = s.tx ∧ s.accept.resp = s.resp ∧ s.accept.tag = s.tag ∧ s.accept.script = s.script
+    ∧ s.accept.cl = s.cl ∧ s.accept.appStarted = s.appStarted ∧ future s.accept = future s
+    ∧ (s.pending = true → s.accept.accepted = true ∧ s.accept.parsing = true)
+    ∧ (s.pending = false → s.accept = s) := by
+  unfold Server.accept
+  cases hp : s.pending <;> simp [future]
+
+theorem stepServer_idle (app : Req → AppResp) (reqs : List Req) (y : Sys) (k : Nat) (hb : Base y)
+    (h : Idle app reqs y k) : Inv app reqs (stepServer app y) := by
+  obtain ⟨hk, hw, hq, hresp, hcur, hrx, hc2s, hs2c, hsrx, hquiet⟩ := h
+  have fa := accept_fields y.s
+  have hqa : Quiet y.s.accept := by
+    obtain ⟨h1, h2, h3, h4⟩ := hquiet
+    refine ⟨by rw [fa.2.1]; exact h1, by rw [fa.2.2.1]; exact h2, ?_, ?_⟩
+    · intro ha
+      cases hp : y.s.pending with
+      | true => exact (fa.2.2.2.2.2.2.2.2.1 hp).2
+      | false => rw [fa.2.2.2.2.2.2.2.2.2 hp] at ha ⊢; exact h3 ha
+    · intro ha
+      cases hp : y.s.pending with
+      | true => rw [(fa.2.2.2.2.2.2.2.2.1 hp).1] at ha; cases ha
+      | false => rw [fa.2.2.2.2.2.2.2.2.2 hp] at ha ⊢; exact h4 ha
+  have hsame : ((y.s.accept.receive y.c2s).1.serviceReqs app).serviceReps = y.s.accept := by
+    rw [hc2s, receive_nil]
+    simp only []
+    rw [serviceReqs_nil app _ (by rw [fa.1]; exact hsrx)]
+    unfold Server.serviceReps
+    rw [serviceRun_quiet _ hqa.2.1]
+    apply rearm_armed
+    intro r hr he
+    cases ha : y.s.accept.accepted with
+    | true => exact hqa.2.2.1 ha
+    | false => have := (hqa.2.2.2 ha).2; rw [this] at hr; cases hr
+  have hst : stepServer app y = { y with s := y.s.accept, c2s := [], s2c := [] } := by
+    unfold stepServer
+    simp only [hsame]
+    rw [tx_nil_eq _ hqa.1, hqa.1, hc2s, receive_nil, hs2c]
+    rfl
+  refine ⟨base_stepServer app y hb, k, Or.inl ?_⟩
+  rw [hst]
+  exact ⟨hk, hw, hq, hresp, hcur, hrx, rfl, rfl, by simpa [fa.1] using hsrx, hqa⟩
+
+theorem serviceRun_live (s : Server) (r : Responder) (hr : s.resp = some r) (he : r.ended = false) :
+    s.serviceRun = { s with resp := some ((if s.appStarted then r else r.start s.cl).serviceOnce s.tag s.script).1,
+                            script := ((if s.appStarted then r else r.start s.cl).serviceOnce s.tag s.script).2.1,
+                            tx := s.tx ++ ((if s.appStarted then r else r.start s.cl).serviceOnce s.tag s.script).2.2.1,
+                            heads := s.heads ++ ((if s.appStarted then r else r.start s.cl).serviceOnce s.tag s.script).2.2.2,
+                            appStarted := true } := by
+  unfold Server.serviceRun
+  simp [hr, he]
+
+theorem start_ended (r : Responder) (cl : Option Nat) : (r.start cl).ended = r.ended := by
+  unfold Responder.start; cases cl <;> rfl
+
+/-- after `serviceReps` on a server that is answering: the responder, its flags and the `Good` invariant -/
+theorem serviceReps_answering (s : Server) (r : Responder) (hr : s.resp = some r)
+    (hpars : r.ended = true → s.parsing = true)
+    (hgood : r.ended = false → Good (if s.appStarted then r else r.start s.cl) s.script) :
+    ∃ r', s.serviceReps.resp = some r' ∧ (r'.ended = true → s.serviceReps.parsing = true)
+      ∧ (r'.ended = false → Good (if s.serviceReps.appStarted then r' else r'.start s.serviceReps.cl) s.serviceReps.script) := by
+  unfold Server.serviceReps
+  cases he : r.ended with
+  | true =>
+    have h1 : s.serviceRun = s := by unfold Server.serviceRun; simp [hr, he]
+    rw [h1]
+    have hf := rearm_fields s
+    refine ⟨r, by rw [hf.2.2.2.1]; exact hr, fun _ => rearm_parsing s r hr he, ?_⟩
+    intro h; rw [he] at h; cases h
+  | false =>
+    have h1 := serviceRun_live s r hr he
+    have hf := rearm_fields s.serviceRun
+    have hresp : s.serviceRun.resp = some ((if s.appStarted then r else r.start s.cl).serviceOnce s.tag s.script).1 := by
+      rw [h1]
+    refine ⟨_, by rw [hf.2.2.2.1]; exact hresp, fun h => rearm_parsing _ _ hresp h, ?_⟩
+    intro hne
+    rw [hf.2.2.2.2.2.2.2, hf.2.2.2.2.2.2.1, hf.2.2.2.2.2.1]
+    have hstarted : s.serviceRun.appStarted = true := by rw [h1]
+    have hscript : s.serviceRun.script = ((if s.appStarted then r else r.start s.cl).serviceOnce s.tag s.script).2.1 := by rw [h1]
+    rw [hstarted, hscript]
+    simp only [if_true]
+    have hr0 : (if s.appStarted then r else r.start s.cl).ended = false := by
+      split
+      · exact he
+      · rw [start_ended]; exact he
+    exact good_step s.tag _ s.script (hgood he) hr0 hne
+
+theorem serviceReps_fields (s : Server) :
+    s.serviceReps.pending = s.pending ∧ s.serviceReps.accepted = s.accepted ∧ s.serviceReps.rx = s.rx
+    ∧ s.serviceReps.tag = s.tag ∧ s.serviceReps.cl = s.cl := by
+  unfold Server.serviceReps
+  have h1 := rearm_fields s.serviceRun
+  have h2 := serviceRun_fields s
+  exact ⟨by rw [h1.1, h2.1], by rw [h1.2.1, h2.2.1], by rw [h1.2.2.1, h2.2.2.1], by rw [h1.2.2.2.2.1, h2.2.2.2.1],
+    by rw [h1.2.2.2.2.2.2.1, h2.2.2.2.2.1]⟩
+
+theorem future_tx (s : Server) (t : List Item) : future ({ s with tx := t } : Server) = future s := by
+  simp [future]
+
+/-- the server state right after `serviceReqs` has parsed request `q` -/
+def answering (app : Req → AppResp) (s : Server) (q : Req) : Server :=
+  { s with rx := [], parsing := false, resp := some fresh, cl := (app q).cl, script := (app q).pieces, appStarted := false, tag := q.id, served := s.served + 1 }
+
+theorem stepServer_requested (app : Req → AppResp) (reqs : List Req) (hwf : ∀ q ∈ reqs, WFApp (app q))
+    (y : Sys) (k : Nat) (q : Req) (hb : Base y)
+    (h : Requested app reqs y k q) : Inv app reqs (stepServer app y) := by
+  obtain ⟨hget, hconn, hw, hlat, hq, hresp, hcur, hrx, hs2c, hwire, hstx, hended, hpars, hnacc⟩ := h
+  have fa := accept_fields y.s
+  have hqmem : q ∈ reqs := List.mem_of_getElem? hget
+  -- after accepting: accepted and parsing
+  have hacc : y.s.accept.accepted = true ∧ y.s.accept.parsing = true := by
+    cases hp : y.s.pending with
+    | true => exact fa.2.2.2.2.2.2.2.2.1 hp
+    | false =>
+      rw [fa.2.2.2.2.2.2.2.2.2 hp]
+      rcases hb.conn hconn with h1 | h1
+      · rw [hp] at h1; cases h1
+      · exact ⟨h1, hpars h1⟩
+  -- the request is received and parsed
+  have hrecv : y.s.accept.receive y.c2s = ({ y.s.accept with rx := [q] }, []) := by
+    unfold Server.receive
+    simp [hacc.1, fa.1, hwire]
+  have hreqs : ({ y.s.accept with rx := [q] } : Server).serviceReqs app = answering app y.s.accept q := by
+    unfold Server.serviceReqs answering
+    simp [hacc.1, hacc.2, fresh]
+  generalize hs3 : answering app y.s.accept q = s3 at hreqs
+  have h3 : s3.rx = [] ∧ s3.resp = some fresh ∧ s3.cl = (app q).cl ∧ s3.script = (app q).pieces ∧ s3.appStarted = false
+      ∧ s3.tag = q.id ∧ s3.tx = [] ∧ s3.accepted = true := by
+    subst hs3; exact ⟨rfl, rfl, rfl, rfl, rfl, rfl, by simp [answering, fa.2.1, hstx], hacc.1⟩
+  have hst : stepServer app y = { y with s := { s3.serviceReps with tx := [] }, c2s := [], s2c := y.s2c ++ s3.serviceReps.tx } := by
+    unfold stepServer
+    simp only [hrecv, hreqs]
+  have hfs3 : future s3 = futureFrom (fresh.start (app q).cl) q.id (app q).pieces := by
+    simp [future, h3.2.1, h3.2.2.2.2.1, h3.2.2.1, h3.2.2.2.1, h3.2.2.2.2.2.1, fresh]
+  have hpipe := serviceReps_pipe s3
+  rw [h3.2.2.2.2.2.2.1, List.nil_append, hfs3] at hpipe
+  have hgood3 : fresh.ended = false → Good (if s3.appStarted then fresh else fresh.start s3.cl) s3.script := by
+    intro _
+    rw [h3.2.2.2.2.1, h3.2.2.1, h3.2.2.2.1]
+    exact good_fresh (app q) (hwf q hqmem)
+  obtain ⟨r', hr', hpars', hgood'⟩ := serviceReps_answering s3 fresh h3.2.1 (by intro h; cases h) hgood3
+  have hf := serviceReps_fields s3
+  refine ⟨base_stepServer app y hb, k, Or.inr (Or.inr ⟨q, ?_⟩)⟩
+  rw [hst]
+  refine ⟨hget, hconn, hw, hlat, hq, hresp, rfl, ?_, ?_, ?_, r', hr', hpars', hgood', ?_⟩
+  · simp [hf.2.2.1, h3.1]
+  · simp [hf.2.1, h3.2.2.2.2.2.2.2]
+  · simp [hf.2.2.2.1, h3.2.2.2.2.2.1]
+  · simp only [hcur, hrx, hs2c, List.nil_append, List.append_nil, future_tx]
+    rw [hpipe]
+    exact stream_roundtrip q.id (app q) (hwf q hqmem)
+
+theorem stepServer_responding (app : Req → AppResp) (reqs : List Req) (y : Sys) (k : Nat) (q : Req) (hb : Base y)
+    (h : Responding app reqs y k q) : Inv app reqs (stepServer app y) := by
+  obtain ⟨hget, hconn, hw, hlat, hq, hresp, hc2s, hsrx, hacc, htag, r, hr, hpars, hgood, hfeed⟩ := h
+  have fa := accept_fields y.s
+  have hnp : y.s.pending = false := by
+    cases hp : y.s.pending with
+    | false => rfl
+    | true => have := hb.excl hp; rw [hacc] at this; cases this
+  have haccept : y.s.accept = y.s := fa.2.2.2.2.2.2.2.2.2 hnp
+  have hsame : (y.s.accept.receive y.c2s).1.serviceReqs app = y.s := by
+    rw [haccept, hc2s, receive_nil]
+    exact serviceReqs_nil app y.s hsrx
+  have hst : stepServer app y = { y with s := { y.s.serviceReps with tx := [] }, c2s := [], s2c := y.s2c ++ y.s.serviceReps.tx } := by
+    unfold stepServer
+    simp only [hsame]
+    rw [haccept, hc2s, receive_nil]
+  obtain ⟨r', hr', hpars', hgood'⟩ := serviceReps_answering y.s r hr hpars hgood
+  have hf := serviceReps_fields y.s
+  have hpipe := serviceReps_pipe y.s
+  refine ⟨base_stepServer app y hb, k, Or.inr (Or.inr ⟨q, ?_⟩)⟩
+  rw [hst]
+  refine ⟨hget, hconn, hw, hlat, hq, hresp, rfl, ?_, ?_, ?_, r', hr', hpars', hgood', ?_⟩
+  · simp [hf.2.2.1, hsrx]
+  · simp [hf.2.1, hacc]
+  · simp [hf.2.2.2.1, htag]
+  · simp only [List.append_nil, future_tx]
+    have : y.c.rx ++ (y.s2c ++ y.s.serviceReps.tx) ++ future y.s.serviceReps = y.c.rx ++ y.s2c ++ y.s.tx ++ future y.s := by
+      simp only [List.append_assoc]
+      rw [hpipe]
+    rw [this]; exact hfeed
+
+/-- **the invariant is preserved by every step of either party** -/
+theorem inv_step (app : Req → AppResp) (reqs : List Req) (hwf : ∀ q ∈ reqs, WFApp (app q)) (y : Sys) (w : Who)
+    (h : Inv app reqs y) : Inv app reqs (step app y w) := by
+  obtain ⟨hb, k, h1 | ⟨q, h2⟩ | ⟨q, h3⟩⟩ := h
+  · cases w
+    · exact stepClient_idle app reqs y k hb h1
+    · exact stepServer_idle app reqs y k hb h1
+  · cases w
+    · exact stepClient_requested app reqs y k q hb h2
+    · exact stepServer_requested app reqs hwf y k q hb h2
+  · cases w
+    · exact stepClient_responding app reqs y k q hb h3
+    · exact stepServer_responding app reqs y k q hb h3
+
+
 end Ioflo.KeepAlive
